@@ -3,7 +3,64 @@ package harness
 import (
 	"fmt"
 	"strconv"
+
+	z "github.com/Oudwins/zog"
+	"github.com/Oudwins/zog/conf"
+	"github.com/Oudwins/zog/zconst"
 )
+
+// A "cfg" operation edits the global configuration between calls, the documented way
+// (conf.DefaultIssueMessageMap[type][code] = text; conf.IssueFormatter = f). A call depends on the
+// configuration at that moment, never on what earlier calls rendered under an earlier configuration.
+var cfgTypes = []string{"string", "number", "bool", "time", "slice", "struct"}
+var cfgCodes = []string{"required", "coerce", "min", "max", "len", "gt", "gte", "lt", "lte", "eq", "contains", "one_of_options", "fallback", "not_nil", "after", "true"}
+
+func genCfgOp(r *Rng) Op {
+	if r.P(0.25) {
+		return Op{Kind: "cfg", Arg: Pick(r, []string{"fmt:global", "fmt:default"})}
+	}
+	return Op{Kind: "cfg", Arg: "msg", Input: VM(KV{"type", VS(Pick(r, cfgTypes))}, KV{"code", VS(Pick(r, cfgCodes))}, KV{"text", VS("edited " + strconv.Itoa(r.Intn(3)))})}
+}
+
+// applyCfg performs a cfg operation and returns its undo.
+func applyCfg(op *Op) func() {
+	switch op.Arg {
+	case "fmt:global":
+		saved := conf.IssueFormatter
+		conf.IssueFormatter = func(e *z.ZogIssue, c z.Ctx) { e.SetMessage("GLOBAL:" + e.Code) }
+		return func() { conf.IssueFormatter = saved }
+	case "fmt:default":
+		saved := conf.IssueFormatter
+		conf.IssueFormatter = conf.DefaultIssueFormatter
+		return func() { conf.IssueFormatter = saved }
+	case "msg":
+		var t, c, text string
+		for _, kv := range op.Input.M {
+			switch kv.K {
+			case "type":
+				t = kv.V.S
+			case "code":
+				c = kv.V.S
+			case "text":
+				text = kv.V.S
+			}
+		}
+		m := conf.DefaultIssueMessageMap[zconst.ZogType(t)]
+		if m == nil {
+			return func() {}
+		}
+		old, had := m[c]
+		m[c] = text
+		return func() {
+			if had {
+				m[c] = old
+			} else {
+				delete(m, c)
+			}
+		}
+	}
+	return func() {}
+}
 
 // C07 – each execution is isolated from every other execution.
 //
@@ -141,6 +198,10 @@ func genC07(r *Rng, tier string) *World {
 			ops = append(ops, Op{Kind: "clear"})
 			continue
 		}
+		if r.P(0.07) {
+			ops = append(ops, genCfgOp(r))
+			continue
+		}
 		op := genExecOp(r, w, cfgs, 0.35)
 		op.Collect = Pick(r, collectKinds)
 		if op.Kind == "parse" && r.P(0.12) {
@@ -177,6 +238,12 @@ func runC07(x *X) *Violation {
 	ops := w.Tasks[0]
 	x.BuildSchemas()
 	x.FreshRun("h/")
+	var undo []func()
+	defer func() {
+		for i := len(undo) - 1; i >= 0; i-- {
+			undo[i]()
+		}
+	}()
 	type kept struct {
 		idx  int
 		res  *Result
@@ -190,6 +257,10 @@ func runC07(x *X) *Violation {
 		switch op.Kind {
 		case "clear":
 			x.R.ClearPools("")
+		case "cfg":
+			undo = append(undo, applyCfg(op))
+			x.Event("cfg " + op.Arg + " " + op.Input.String())
+			x.Faults["cfg_edit"]++
 		case "parse", "validate":
 			res := x.Exec(tag, op)
 			if len(res.Issues) > 0 || len(op.Opts) > 0 || res.Panic != "" {
